@@ -9,15 +9,17 @@
 
   KNOWN FINDINGS — clauses that are false of the unchanged code, each with a `_partial` theorem
   whose hypothesis excludes the class, and a `_counterexample`:
-   * nested junctions (c17/nested-junction-wrong-parent, c17/nested-junction-panic):
-     `parent_is_true_parent_partial` needs `NoNestedJunction`; `parent_is_true_parent_counterexample`.
+   * nested junctions (c17/nested-junction-wrong-parent): `parent_is_true_parent_partial` needs
+     `NoNestedJunction`; `parent_is_true_parent_counterexample` (wrong parent, and — since the fix
+     below — `Err(Topology)` instead of a panic when the wrongly chosen junction is full).
    * 32-bit wrap between the port latches of one device (c17/port-time-wrap): both tree theorems
      need `NoWrap`; `port_time_wrap_counterexample`.
    * a DC device behind a device without DC (c17/chain-delay-nondc-gap): `chain_delay_exact_partial`
      needs `DcContig`; `chain_delay_exact_counterexample`.
-   * reports with no open port / over-subscribed junctions (c17/inconsistent-panic-topology,
-     c17/inconsistent-panic-nofree): `inconsistent_is_error_partial`;
-     `inconsistent_no_open_port_counterexample`, `inconsistent_no_free_port_counterexample`.
+  FIXED (were c17/inconsistent-panic-topology, c17/inconsistent-panic-nofree, c17/nested-junction-panic):
+  a DL status without any open port is rejected up front and a junction without a free port gives
+  `Err(Error::Topology)`; `inconsistent_is_error` is now the full statement (no hypothesis on the
+  reports beyond their types); the former witnesses are in `inconsistent_reports_rejected`.
    * i64 overflow of the offset in checked builds (c17/offset-i64-overflow): `offset_formula`
      is unconditional for release builds and conditional (`OffsetFits`) for checked builds;
      `offset_formula_counterexample`.
@@ -52,7 +54,7 @@ theorem generated_facts :
 theorem delay_monotone (m : Mode) (devs out : List Dev) (h0 : ∀ d ∈ devs, d.delay = 0)
     (h : assignParentRelationships m devs = .ok out) :
     List.Pairwise (fun a b => a.dc = true → b.dc = true → a.delay ≤ b.delay) out :=
-  assignLoop_mono m devs [] 0 out List.Pairwise.nil (by simp) (by decide) h0 h
+  assignLoop_mono m devs [] 0 out List.Pairwise.nil (by simp) (by decide) h0 (assign_ok_loop m devs out h)
 
 theorem delay_monotone_reports (m : Mode) (rs : List Report) (out : List Dev)
     (h : assignParentRelationships m (mkDevs rs) = .ok out ∨ assignParentRelationships m (latch rs) = .ok out) :
@@ -146,15 +148,15 @@ def wT5 : Tree := .node ⟨2, 1000, 40, 40, 100⟩ wY wLeaf .none
 /-- ... and A.p2 → W. -/
 def wT6 : Tree := .node ⟨2, 1000, 40, 40, 100⟩ wY wLeaf wLeaf
 
-/-- Known findings c17/nested-junction-wrong-parent and c17/nested-junction-panic: Z (position 4)
-    is given parent 1 (= Y) although it hangs off A (position 0); with W the code panics — on valid
-    trees without any wrap (`NoNestedJunction` fails, everything else holds). -/
+/-- Known finding c17/nested-junction-wrong-parent: Z (position 4)
+    is given parent 1 (= Y) although it hangs off A (position 0); with W the valid tree is rejected
+    with `Err(Topology)` (a panic before the fix) — on valid trees without any wrap (`NoNestedJunction` fails, everything else holds). -/
 theorem parent_is_true_parent_counterexample :
     (match assignParentRelationships .checked (mkDevs (visit wT5 0 1000).1) with
       | .ok out => out.map (·.parent)
       | _ => []) = [none, some 0, some 1, some 1, some 1] ∧
     trueParents wT5 0 none = [none, some 0, some 1, some 1, some 0] ∧
-    assignParentRelationships .checked (mkDevs (visit wT6 0 1000).1) = .panic "no free ports on parent" ∧
+    assignParentRelationships .checked (mkDevs (visit wT6 0 1000).1) = .err .topology ∧
     NoWrap wT5 1000 ∧ NoWrap wT6 1000 ∧ ¬ NoNestedJunction wT5 ∧ ¬ NoNestedJunction wT6 := by
   refine ⟨by decide, by decide, by decide, ?_, ?_, ?_, ?_⟩
   · simp [wT5, wY, wLeaf, NoWrap, visit, Tree.link, Tree.isNode, Tree.size, local32, U32]
@@ -207,7 +209,7 @@ theorem offset_formula (m : Mode) (now : Nat) (rs : List Report) (ws : List Writ
   | ok out =>
     rw [ha] at h
     simp only at h
-    have hidk := assignLoop_idk m (latch rs) [] 0 out ha
+    have hidk := assignLoop_idk m (latch rs) [] 0 out (assign_ok_loop _ _ _ ha)
     simp only [List.nil_append] at hidk
     cases hf : (out.find? (fun d => d.dc)).map (·.index) with
     | none =>
@@ -260,7 +262,7 @@ theorem first_dc_is_reference (m : Mode) (now : Nat) (rs : List Report) (ws : Li
   | ok out =>
     rw [ha] at h
     simp only at h
-    have hidk := assignLoop_idk m (latch rs) [] 0 out ha
+    have hidk := assignLoop_idk m (latch rs) [] 0 out (assign_ok_loop _ _ _ ha)
     simp only [List.nil_append] at hidk
     have hfirst : (out.find? (fun d => d.dc)).map (·.index) = firstDcFrom 0 rs := by
       rw [find_dc_of_idk out (latch rs) hidk]
@@ -284,27 +286,29 @@ theorem first_dc_is_reference (m : Mode) (now : Nat) (rs : List Report) (ws : Li
 
 /-! ### clause 6: inconsistent reports produce an error, not a panic -/
 
-/-- ARBITRARY reports in which every device has at least one open port (and `u32` times): the only
-    panic `assign_parent_relationships` can raise is `unwrap_opt!(.., "no free ports on parent")`
-    (dc.rs:336). In particular `Ports::topology()`'s `unreachable!`, `entry_port()`'s unwrap, the
-    parent lookup, `"Parent assigned port"` and the `u32` sum cannot fire. -/
-theorem inconsistent_is_error_partial (m : Mode) (rs : List Report) (w : String)
-    (hopen : ∀ r ∈ rs, 1 ≤ r.openCount)
-    (htimes : ∀ r ∈ rs, r.t0 < U32 ∧ r.t1 < U32 ∧ r.t2 < U32 ∧ r.t3 < U32)
-    (h : assignParentRelationships m (mkDevs rs) = .panic w) : w = "no free ports on parent" := by
-  refine assignLoop_panic_only_nofree m (mkDevs rs) [] 0 w (by simp) ?_ (mkDevsFrom_indexed' _ (fun _ _ => rfl) rs 0) h
+theorem timesOk_devOfReport (i : Nat) (r : Report)
+    (ht : r.t0 < U32 ∧ r.t1 < U32 ∧ r.t2 < U32 ∧ r.t3 < U32) : TimesOk (devOfReport i r).ports :=
+  ⟨ht.1, ht.2.2.2, ht.2.1, ht.2.2.1⟩
+
+/-- ARBITRARY reports — any DL status including "no port open", any `u32` receive times, any DC
+    mix, any number of devices: `assign_parent_relationships` returns a value or an error, it never
+    panics, in either build mode. (`Ports::topology()`'s `unreachable!`, `entry_port()`'s unwrap, the
+    parent lookup, `"Parent assigned port"` and the `u32` sum are all unreachable.) -/
+theorem inconsistent_is_error (m : Mode) (rs : List Report) (w : String)
+    (htimes : ∀ r ∈ rs, r.t0 < U32 ∧ r.t1 < U32 ∧ r.t2 < U32 ∧ r.t3 < U32) :
+    assignParentRelationships m (mkDevs rs) ≠ .panic w := by
+  refine assign_no_panic m (mkDevs rs) w ?_ (mkDevsFrom_indexed' _ (fun _ _ => rfl) rs 0)
   intro d hd
   rcases mkDevsFrom_mem _ _ _ d hd with ⟨i, r, hr, rfl⟩
-  exact good_devOfReport i r (hopen r hr) (htimes r hr)
+  exact timesOk_devOfReport i r (htimes r hr)
 
-/-- The whole of `configure_dc` (latch, topology, delays, offset writes) in release builds: same
-    conclusion. (In checked builds the `i64` offset can panic as well: known finding above.) -/
+/-- The whole of `configure_dc` (latch, topology, delays, offset writes) in release builds: no panic
+    either. (In checked builds the `i64` offset can panic: known finding above.) -/
 theorem inconsistent_is_error_configure_dc (now : Nat) (rs : List Report) (ws : List Write) (w : String)
-    (hopen : ∀ r ∈ rs, 1 ≤ r.openCount)
     (htimes : ∀ r ∈ rs, r.t0 < U32 ∧ r.t1 < U32 ∧ r.t2 < U32 ∧ r.t3 < U32)
-    (hnow : now < U64) (hrx : ∀ r ∈ rs, r.rx < U64)
-    (h : configureDc .wrapping now rs = (ws, .panic w)) : w = "no free ports on parent" :=
-  configureDc_panic_wrapping now rs ws w hopen htimes hnow hrx h
+    (hnow : now < U64) (hrx : ∀ r ∈ rs, r.rx < U64) :
+    configureDc .wrapping now rs ≠ (ws, .panic w) :=
+  configureDc_no_panic_wrapping now rs ws w htimes hnow hrx
 
 /-- ... and for every valid tree without nested junctions (no wrap) there is no panic and no error
     at all (restating `parent_is_true_parent_partial`). -/
@@ -314,22 +318,20 @@ theorem valid_tree_no_panic (m : Mode) (T : Tree) (tin : Nat) (h : T.isNode = tr
   rcases assign_tree m T tin h hn hw with ⟨out, ho, _⟩
   exact ⟨out, ho⟩
 
-/-- Known finding c17/inconsistent-panic-topology: a single DC device reporting no open port. -/
-theorem inconsistent_no_open_port_counterexample :
-    assignParentRelationships .checked (mkDevs [⟨4096, false, false, false, false, true, 0, 0, 0, 0, 0⟩])
-      = .panic "Invalid topology" ∧
-    assignParentRelationships .checked
+/-- The former witnesses of c17/inconsistent-panic-topology (a device reporting no open port, as a DC
+    device or in front of another device) and c17/inconsistent-panic-nofree (a fork followed by four
+    line ends) are now rejected with `Err(Topology)`. -/
+theorem inconsistent_reports_rejected (m : Mode) :
+    assignParentRelationships m (mkDevs [⟨4096, false, false, false, false, true, 0, 0, 0, 0, 0⟩])
+      = .err .topology ∧
+    assignParentRelationships m
       (mkDevs [⟨4096, false, false, false, false, false, 0, 0, 0, 0, 0⟩, ⟨4097, true, false, false, false, true, 100, 0, 0, 0, 100⟩])
-      = .panic "Invalid topology" := by
-  decide
-
-/-- Known finding c17/inconsistent-panic-nofree: a fork followed by four line ends. -/
-theorem inconsistent_no_free_port_counterexample :
-    assignParentRelationships .checked (mkDevs [⟨0, true, true, false, true, true, 100, 900, 0, 500, 100⟩,
+      = .err .topology ∧
+    assignParentRelationships m (mkDevs [⟨0, true, true, false, true, true, 100, 900, 0, 500, 100⟩,
       ⟨0, true, false, false, false, true, 100, 0, 0, 0, 100⟩, ⟨0, true, false, false, false, true, 100, 0, 0, 0, 100⟩,
       ⟨0, true, false, false, false, true, 100, 0, 0, 0, 100⟩, ⟨0, true, false, false, false, true, 100, 0, 0, 0, 100⟩])
-      = .panic "no free ports on parent" := by
-  decide
+      = .err .topology := by
+  cases m <;> refine ⟨by decide, by decide, by decide⟩
 
 /-! ### non-vacuity -/
 
